@@ -15,6 +15,7 @@ import json
 import os
 import subprocess
 import sys
+import tempfile
 
 from harness import checklib
 
@@ -174,6 +175,73 @@ def group_task(case):
     return out
 
 
+TRANSPORT_CHILD = r"""
+import json, sys
+import ceos_alos2
+from harness import project
+mode, url, out = sys.argv[1:4]
+try:
+    if mode == "write":
+        ceos_alos2.open_alos2(url, backend_options={"create_cache": True, "use_cache": False, "records_per_chunk": 3})
+        res = ["ok", None]
+    elif mode == "cli":
+        import os
+        from harness import cacherun
+        rcs = [cacherun.run_cli(os.path.join(url, n), 5) for n in sorted(os.listdir(url)) if n.startswith("IMG-") and not n.endswith(".index")]
+        res = ["ok" if all(rc == 0 for rc in rcs) else "error", str(rcs)]
+    else:
+        opts = {"use_cache": mode == "read", "records_per_chunk": 2}
+        res = ["ok", project.fingerprint(ceos_alos2.open_alos2(url, backend_options=opts))]
+except BaseException as e:
+    res = ["error", f"{type(e).__name__}: {str(e)[:200]}"]
+json.dump(res, open(out, "w"))
+"""
+LOCALES = {"utf8": {"PYTHONUTF8": "1"}, "C": {"LC_ALL": "C", "LANG": "C", "PYTHONUTF8": "0", "PYTHONCOERCECLOCALE": "0"}}
+
+
+def transport_task(task):
+    """the index as a FILE between processes whose locale encodings differ: written by one process (create_cache=True or the CLI),
+    read by a fresh one (default options) -- "self-contained text that a fresh process can decode" """
+    from harness import imgrun, product
+
+    b = product.build_product(level="1.1", images=(("HH", "F1", 3, 2), ("HH", "F2", 2, 2)), seed=task["seed"])  # carries the units Hz/µs
+    url = imgrun.put_on_fs(b, "local", f"c08t_{task['seed']}")
+    d = tempfile.mkdtemp(dir=checklib.worker_dir())
+    xdg = os.path.join(d, "xdg")
+    os.makedirs(xdg)
+
+    def child(mode, loc):
+        out = os.path.join(d, f"{mode}.json")
+        env = {k: v for k, v in checklib.worker_env(xdg).items() if k not in ("LC_ALL", "LC_CTYPE", "LANG", "LANGUAGE", "PYTHONUTF8", "PYTHONCOERCECLOCALE", "PYTHONIOENCODING")}
+        env.update(LOCALES[loc])
+        p = subprocess.run([sys.executable, "-W", "ignore", "-c", TRANSPORT_CHILD, mode, url, out], env=env, stdout=subprocess.PIPE, stderr=subprocess.STDOUT, text=True)
+        if not os.path.exists(out):
+            raise checklib.Machinery(f"transport child {mode}/{loc} died:\n" + p.stdout[-1500:])
+        return json.load(open(out))
+
+    res = {"task": task, "bad": []}
+    try:
+        ref = child("reference", "utf8")
+        if ref[0] != "ok":
+            raise checklib.Machinery(f"reference open failed: {ref[1]}")
+        w = child(task["producer"], task["writer"])
+        if w[0] != "ok":
+            res["bad"].append(("write-failed", f"{task['producer']} under locale {task['writer']}: {w[1]}"))
+            return res
+        r = child("read", task["reader"])
+        if r[0] != "ok":
+            res["bad"].append(("read-failed", f"index written under locale {task['writer']} ({task['producer']}), default open under locale {task['reader']}: {r[1]}"))
+            return res
+        from harness import project
+
+        dd = project.diff(ref[1], r[1])
+        if dd:
+            res["bad"].append(("differs", f"index written under {task['writer']}, read under {task['reader']}: {dd[:3]}"))
+    finally:
+        imgrun.drop_from_fs(url, "local")
+    return res
+
+
 def body(chk):
     from checks import _layoutcommon as lc
     from harness import plans, tlc
@@ -205,10 +273,19 @@ def body(chk):
             chk.count(1, f"group:{name}:plan{res['case']['k']}")
             if st != "ok":
                 chk.violation(f"codec-group:{st}:{name.split(':')[0]}", f"image group {name} under plan {res['case']['k']}: {st}: {msg}", {"case": res["case"]})
-    chk.traces(len(reps) + ng)
+    ttasks = [dict(seed=chk.seed + 40 + i, producer=pr, writer=w, reader=rd) for i, (pr, w, rd) in enumerate(
+        (pr, w, rd) for pr in ("write", "cli") for w in ("utf8", "C") for rd in ("utf8", "C"))]
+    lc.prepare_layouts([dict(level="1.1", images=(("HH", "F1", 3, 2), ("HH", "F2", 2, 2)))])
+    for res in checklib.pmap(transport_task, ttasks, chk.scratch):
+        t = res["task"]
+        chk.count(1, f"transport:{t['producer']}:{t['writer']}->{t['reader']}")
+        for what, msg in res["bad"]:
+            chk.violation(f"transport:{what}:{t['producer']}:{t['writer']}->{t['reader']}", msg, {"task": t})
+    chk.traces(len(reps) + ng + len(ttasks))
     chk.sample({"representatives": sorted(reps)[:10], "outcomes": {k: v[0] for k, v in list(sorted(reps.items()))[:10]}})
     chk.assumptions += ["supported dtype kinds are b, i, u, f, M, m, U (complex is not in the property's list)",
                         "the decoded image array is rebuilt with the reading call's records_per_chunk and filesystem; everything else must be bit-identical",
+                        "transport: the index file written by one process and read by a fresh one under UTF-8 and plain C (ASCII) locale encodings, both producers",
                         "the spec decides the structural cases (tagging, nesting, reference/offset arithmetic with NaT, shapes); digit exactness is decided by "
                         "the byte-level comparison on extreme representatives"]
     chk.finish(rule="representatives = one or more extreme concrete values per (dtype kind, shape class, NaT class) + nested attribute shapes + backend "
